@@ -63,9 +63,8 @@ def install(ip):
         def g():
             i = 0
             while True:
-                try:
-                    x = yield from ip_.next_item(it)
-                except StopIteration:
+                x = yield from ip_.next_item(it)
+                if x is I.END:
                     return
                 yield I.YieldEvent((i, x))
                 i += 1
@@ -79,9 +78,8 @@ def install(ip):
             while True:
                 row = []
                 for it in its:
-                    try:
-                        x = yield from ip.next_item(it)
-                    except StopIteration:
+                    x = yield from ip.next_item(it)
+                    if x is I.END:
                         return
                     row.append(x)
                 yield I.YieldEvent(tuple(row))
@@ -99,9 +97,8 @@ def install(ip):
         loop = ip.iterate(x)
         out = []
         while True:
-            try:
-                v = yield from ip.next_item(loop)
-            except StopIteration:
+            v = yield from ip.next_item(loop)
+            if v is I.END:
                 break
             out.append(v)
         return out
@@ -130,7 +127,10 @@ def install(ip):
             if isinstance(args[0], dict):
                 d.update(args[0])
             else:
-                raise Unsupported('dict() from iterable')
+                pairs = yield from _list(ip, [args[0]], {})
+                for pr in pairs:
+                    k, v = pr
+                    d[ip.hashable(k)] = v
         d.update(kw)
         return d
 
@@ -623,15 +623,8 @@ def install(ip):
         shp, f = args
         shp = shape_arg(shp)
         dtype = kw.get('dtype', 'real')
-        ip_ = ip
-
-        def fn(idx):
-            ip_.term_mode += 1
-            try:
-                return I.run_to_completion(ip_.call_function(f, list(idx), {}))
-            finally:
-                ip_.term_mode -= 1
-        return ip.st.new_array(shp, fn, dtype)
+        fz = freeze(ip, f)
+        return ip.st.new_array(shp, lambda idx: fz(idx), dtype)
 
     @reg('builtins.require')
     def _require(ip, args, kw):
@@ -698,7 +691,101 @@ def install(ip):
     def _isnone(ip, args, kw):
         return ip.identical(args[0], None)
 
+    @reg('builtins.elementwise')
+    def _selementwise(ip, args, kw):
+        op = args[0]
+        fz = freeze(ip, op)
+
+        def f(*xs):
+            return fz(xs)
+        r = yield from ip.elementwise(f, list(args[1:]), None)
+        if not isinstance(r, SArr):
+            r = ip.st.new_array((), lambda idx: r)
+        return r
+
+    @reg('builtins.inplace_elementwise')
+    def _sinplace(ip, args, kw):
+        op, a, b = args
+        b = ip.unopt(b)
+        if isinstance(b, (list, tuple)):
+            b = ip.as_array(b)
+        fz = freeze(ip, op)
+
+        def f(x, y):
+            return fz((x, y))
+        if isinstance(b, SArr):
+            shape, mappers = ip.broadcast([a.shape, b.shape])
+            if len(shape) != len(a.shape):
+                raise SymRaise('ValueError', 'non-broadcastable output operand')
+            for x, y in zip(shape, a.shape):
+                if not ip.dims_equal(x, y):
+                    raise SymRaise('ValueError', 'non-broadcastable output operand')
+            cs, bs, mp = a.snapshot(ip.st), b.snapshot(ip.st), mappers[1]
+            store_write(ip.st, a, lambda vi: f(cs(vi), bs(mp(vi))))
+        else:
+            cs = a.snapshot(ip.st)
+            store_write(ip.st, a, lambda vi: f(cs(vi), b))
+        return None
+
+    @reg('builtins.broadcast_to')
+    def _sbroadcast_to(ip, args, kw):
+        val, shape = args
+        shape = shape_arg(shape)
+        val = ip.unopt(val)
+        if isinstance(val, (list, tuple)):
+            val = ip.as_array(val)
+        if not isinstance(val, SArr):
+            if not (is_num(val) or is_boolish(val)):
+                raise Unsupported('broadcast_to of %r' % (val,))
+            return ip.st.new_array(shape, lambda idx: val)
+        res, mappers = ip.broadcast([shape, val.shape])
+        if len(res) != len(shape):
+            raise SymRaise('ValueError', 'could not broadcast input array')
+        for x, y in zip(res, shape):
+            if not ip.dims_equal(x, y):
+                raise SymRaise('ValueError', 'could not broadcast input array')
+        vs, mp = val.snapshot(ip.st), mappers[1]
+        return ip.st.new_array(shape, lambda idx: vs(mp(idx)), val.dtype)
+
+    @reg('builtins.update')
+    def _supdate(ip, args, kw):
+        arr, f = args
+        fz = freeze(ip, f)
+        store_write(ip.st, arr, lambda idx: fz(idx))
+        return None
+
     ip.spec_depth_call = 0
+
+
+def freeze(ip, f):
+    """Capture the state `f` sees *now* (store, heap, local variables): spec-language array
+    constructors are eager in Python, while the symbolic arrays evaluate their element terms lazily."""
+    from . import interp as I
+    store = dict(ip.st.store)
+    heap = {k: dict(v) for k, v in ip.st.heap.items()}
+
+    def snap_env(e):
+        if e is None:
+            return None
+        if e.module is not None and e is e.module.env:
+            return e
+        n = I.Env(parent=snap_env(e.parent), module=e.module)
+        n.vars = dict(e.vars)
+        return n
+    if isinstance(f, I.SFunc):
+        f = I.SFunc(f.node, f.module, snap_env(f.env), f.cls, f.name, f.is_spec)
+
+    def call(args):
+        st = ip.st
+        cur_store, cur_heap = st.store, st.heap
+        st.store, st.heap = dict(store), {k: dict(v) for k, v in heap.items()}
+        ip.term_mode += 1
+        try:
+            return I.run_to_completion(ip.call(f, list(args), {}))
+        finally:
+            ip.term_mode -= 1
+            st.store, st.heap = cur_store, cur_heap
+    return call
 
 
 class SSet(object):
